@@ -65,6 +65,12 @@ D = {
  'C18-reader-moves-slot': ('C18', 'HalfLock::read moves to the fresh slot after a generation change without undoing its first increment', 'a writer\'s flip between two loads of a delivery on another thread: a slot stays at +1, the next writer spins forever'),
  'C06-dequeue-head-once': ('C06', 'dequeue computes head and emptiness once before the CAS retry loop', 'two overlapping dequeues on one queue word (two producers / two consumers / send in send)'),
  'C06-recv-handback-first': ('C06', 'recv enqueues the slot to `empty` before take()', 'a completely full channel and a send between the hand-back and the take'),
+ 'C07-acquire-on-load': ('C07', 'dequeue acquires on its initial load and claims with a Relaxed CAS', 'two dequeuers on one queue word plus the opposite side: the retried CAS claims a head it never acquired (a C11 race x86 cannot show)'),
+ 'C07-maybeuninit-drop-by-position': ('C07', 'Option<T> cells become MaybeUninit<T>; the new Drop walks `full` but drops storage[position]', 'send a; send b; recv a; drop(channel): a dropped twice, b leaked'),
+ 'C11-close-wakes-before-flag': ('C11', 'close() sends the wake-up byte before storing the closed flag (inside if !is_closed())', 'the consumer drains the byte and re-checks the flag between the closer\'s send and store: blocks again for good'),
+ 'C11-close-unwraps-poisoned-lock': ('C11', 'close() takes the ids mutex with unwrap(); add_signal returns early when closed', 'a caught panicking add_signal (forbidden signal) poisons the mutex; every later close() panics before the flag store'),
+ 'C10-recv-handback-early': ('C10', 'Channel::recv hands the slot back before take() (independent rediscovery, round 2)', '5 outstanding records and a delivery between the early enqueue and the take'),
+ 'C10-add-signal-check-then-act': ('C10', 'Handle::add_signal: check and record under separate lock acquisitions (independent rediscovery, round 2)', 'two add_signal(S) at once on one instance, info-carrying exfiltrator: two records per delivery'),
  'C18-unregister-read-then-write': ('C18', 'unregister looks the id up under a read guard that is still held while write() blocks', 'two mutators: one holds the mutex before its barrier\'s first check, the other\'s unregister has incremented a reader slot and blocks on the mutex'),
 }
 for name, (prop, change, needs) in D.items():
